@@ -159,6 +159,53 @@ def check_mi(ctx, k, log=32):
     ctx.expect(paths, ret=1, abort=1)
 
 
+SHAPES = ["k_shape_copyinit", "k_shape_directinit", "k_shape_twoarg", "k_shape_assign", "k_shape_vol_assign", "k_shape_vol_stdarray",
+          "k_shape_vol_carray", "k_shape_vol_fnptr"]
+
+
+def check_shape(ctx, k, pb):
+    """only reached when the tree under test accepts the shape at compile time"""
+    base = ctx.sandbox_base(32)
+    size = 1 << 32
+    addr = ctx.sym("addr", 64)
+    inside = ctx.in_region(addr, base, size)
+    if "_vol_" in k:
+        cell = ctx.sym("cell", 64)
+        n = 2 if "array" in k else 1
+        ctx.assume(z3.UGE(cell, base), z3.ULE(cell - base, BV(size - n * pb, 64)))
+        paths = ctx.run(k, [base, cell, addr])
+        for q in paths:
+            if q.status == "ret":
+                cells = [z3.Concat(*[z3.Select(q.mem, cell + BV(j * pb + i, 64)) for i in reversed(range(pb))]) for j in range(n)]
+                ctx.require(q, z3.And(inside, *[zext(c, 64) == addr - base for c in cells]),
+                            "a raw application pointer reaches sandbox memory only if it lies inside the sandbox, as its representation")
+    else:
+        paths = ctx.run(k, [base, addr])
+        for q in paths:
+            if q.status == "ret":
+                ctx.require(q, z3.And(inside, q.ret == addr), "a raw application pointer becomes tainted only if it lies inside the sandbox")
+    ctx.only(paths, "ret", "abort")
+    ctx.expect(paths)
+    ctx.expected_ok = True
+
+
+def check_shape_ctl(ctx, k):
+    base = ctx.sandbox_base(32)
+    p = ctx.sym("p", 64)
+    ctx.assume(ctx.in_region(p, base, 1 << 32))
+    if k == "k_ctl_vol":
+        cell = ctx.sym("cell", 64)
+        ctx.assume(z3.UGE(cell, base), z3.ULE(cell - base, BV((1 << 32) - 16, 64)))
+        paths = ctx.run(k, [base, cell, p])
+    else:
+        paths = ctx.run(k, [base, p])
+    for q in paths:
+        if q.status == "ret" and k == "k_ctl_init":
+            ctx.require(q, q.ret == p, "control: tainted-from-tainted initialisation and assignment keep the pointer")
+    ctx.only(paths, "ret")
+    ctx.expect(paths, ret=1)
+
+
 def check_small(ctx, k):
     """backend whose is_in_same_sandbox is a coarse 4 GiB window while only 64 KiB are sandbox memory:
     the entry points must use the exact membership test"""
@@ -192,6 +239,10 @@ def jobs(tier, seed):
             out.append(Job("C02_%s_%d" % (sbx, gi), src, chks))
     out.append(Job("C02_B32_mi", '#include "verif_sandbox.hpp"\nusing S = B32;\n#include "C02_kernels.inc"\n',
                    [dict(name="B32 " + k, fn=check_mi, kw=dict(k=k)) for k in ("k_assign_mi", "k_assignvol_mi")], native=False))
+    for sbx, pb in (("B32", 4), ("B64", 8)):
+        shsrc = '#include "verif_sandbox.hpp"\nusing S = %s;\n#include "C02_shapes.inc"\n' % sbx
+        out.append(Job("C02_%s_shapes" % sbx, shsrc, [dict(name="%s rejected shape %s" % (sbx, k), fn=check_shape, kw=dict(k=k, pb=pb), optional=True) for k in SHAPES] +
+                       [dict(name="%s control %s" % (sbx, k), fn=check_shape_ctl, kw=dict(k=k)) for k in ("k_ctl_init", "k_ctl_vol")], native=False))
     lsrc = '#include "verif_sandbox.hpp"\nusing S = B32L;\n#include "C02_life.inc"\n'
     for k in ("k_life_accept", "k_life_assign", "k_life_assignvol"):
         out.append(Job("C02_B32L_" + k, lsrc, [dict(name="B32L %s phase=%d" % (k, ph), fn=check_life, kw=dict(k=k, phase=ph)) for ph in (0, 1, 2)], native=False))
